@@ -14,6 +14,7 @@ import SupervisorModel.Props.C16
     multicall        multicall_sequential, multicall_recursion_refused, multicall_elements
     answers          never_500_partial, log_methods_answer (what IS proved of "never an HTTP 500")
     framing          immediate_content_length, deferred_content_length (F42, fixed)
+    group creation   addProcessGroup_answers_partial (F48, F49 fixed: ValueError / OSError -> FAILED), addGroup_table_ok
     request delivery request_body_fragmentation_invariant, request_body_independent_of_cuts, request_body_roundtrip,
                      request_header_fragmentation_invariant (the answer cannot depend on how the socket cuts the request)
 -/
@@ -778,6 +779,153 @@ example : requestBody [[0x63, 0xC3, 0xA9, 0x21]] = .ok (.text ['c', 'é', '!']) 
 example : requestBody [[0xC3], [0x28]] = .error "UnicodeDecodeError" := by decide
 example : requestHeader [[0x58, 0xE2], [0x82], [0xAC]] = .ok (.text ['X', '€']) := by decide
 example : decodeUtf8 [0xED, 0xA0, 0x80] = none ∧ decodeUtf8 [0xC0, 0x80] = none ∧ decodeUtf8 [0xF4, 0x90, 0x80, 0x80] = none := by decide
+
+/-! ## addProcessGroup for a group that cannot be created (F48) -/
+
+theorem faultCode_mem (f : String) (c : Int) (h : faultCode f = some c) : c ∈ faults.map (·.2) := by
+  unfold faultCode at h
+  generalize faults = l at h ⊢
+  induction l with
+  | nil => simp [List.lookup] at h
+  | cons p r ih =>
+    obtain ⟨k, v⟩ := p
+    simp only [List.lookup] at h
+    split at h
+    · simp at h; simp [h]
+    · simp [ih h]
+
+theorem raiseOne_documented {σ ν : Type} (fs : List String)
+    (h : (match fs with | [f] => (faultCode f).isSome | _ => false) = true) : Documented (raiseOne fs : Outcome σ ν) := by
+  match fs, h with
+  | [f], h =>
+    simp only [Option.isSome_iff_exists] at h
+    obtain ⟨c, hc⟩ := h
+    exact Or.inr ⟨c, faultCode_mem f c hc, by simp [raiseOne, raiseFault, hc]⟩
+
+theorem catches_mono (a b : List String) (exc : String) (hab : ∀ t ∈ a, t ∈ b) (h : catches a exc = true) :
+    catches b exc = true := by
+  unfold catches at h ⊢
+  cases hl : excMro.lookup exc with
+  | some mro =>
+    rw [hl] at h
+    simp only [List.any_eq_true] at h ⊢
+    obtain ⟨t, ht, hm⟩ := h
+    exact ⟨t, hab t ht, hm⟩
+  | none =>
+    rw [hl] at h
+    simp only [List.contains_iff_mem, List.elem_eq_mem, decide_eq_true_eq] at h ⊢
+    exact hab _ h
+
+theorem catches_split (a : List String) (exc : String) (h : catches a exc = true) : ∃ t ∈ a, catches [t] exc = true := by
+  unfold catches at h
+  cases hl : excMro.lookup exc with
+  | some mro =>
+    rw [hl] at h
+    simp only [List.any_eq_true] at h
+    obtain ⟨t, ht, hm⟩ := h
+    exact ⟨t, ht, by simpa [catches, hl] using hm⟩
+  | none =>
+    rw [hl] at h
+    simp only [List.contains_iff_mem, List.elem_eq_mem, decide_eq_true_eq] at h
+    exact ⟨exc, h, by simp [catches, hl]⟩
+
+/-- the generated facts the theorem rests on: every except clause around add_process_group answers
+    exactly one fault, a constant of `Faults`; ValueError and OSError are each named by a clause; the
+    two other faults of the method are constants too -/
+theorem addGroup_table_ok :
+    (addGroupCatches.all fun h => match h.2 with | [f] => (faultCode f).isSome | _ => false) = true ∧
+    (["ValueError", "OSError"].all fun t => addGroupCatches.any fun h => h.1.contains t) = true ∧
+    (match addGroupAlready with | [f] => (faultCode f).isSome | _ => false) = true ∧
+    (match addGroupUnknown with | [f] => (faultCode f).isSome | _ => false) = true ∧
+    (∃ g, gateTable.lookup "addProcessGroup" = some g ∧ gateOk g = true ∧ g ≠ Gate.none ∧ ∀ l, g ≠ Gate.viaLeaf l) := by
+  refine ⟨by decide, by decide, by decide, by decide, ⟨Gate.first, by decide, by decide, by decide, by intro l; exact Gate.noConfusion⟩⟩
+
+theorem addGroupBody_documented {ν : Type} (vTrue : ν) (found : Bool) (construct : AddRes) (s : Nat)
+    (h : ∀ exc, construct = .raised exc → catches ["ValueError", "OSError"] exc = true) :
+    Documented (addGroupBody vTrue found construct s).1 ∧
+    ((addGroupBody vTrue found construct s).2 = s ∨
+      (found = true ∧ construct = .added ∧ addGroupBody vTrue found construct s = (.value vTrue, s + 1))) := by
+  obtain ⟨hall, hany, halr, hunk, _⟩ := addGroup_table_ok
+  unfold addGroupBody
+  cases found with
+  | false => exact ⟨by simpa using raiseOne_documented _ hunk, Or.inl (by simp)⟩
+  | true =>
+    cases construct with
+    | added => exact ⟨Or.inl ⟨vTrue, by simp⟩, Or.inr ⟨rfl, rfl, by simp⟩⟩
+    | already => exact ⟨by simpa using raiseOne_documented _ halr, Or.inl (by simp)⟩
+    | raised exc =>
+      have hc := h exc rfl
+      simp only [Bool.not_true, Bool.false_eq_true, if_false]
+      cases hf : addGroupCatches.find? (fun h => catches h.1 exc) with
+      | none =>
+        exfalso
+        rw [List.find?_eq_none] at hf
+        obtain ⟨t, ht, hct⟩ := catches_split _ exc hc
+        have hany' := (List.all_eq_true.mp hany) t ht
+        simp only [List.any_eq_true] at hany'
+        obtain ⟨h0, hm, hv⟩ := hany'
+        have := hf h0 hm
+        have h1 : catches h0.1 exc = true :=
+          catches_mono [t] h0.1 exc (by intro t' ht'; simp at ht'; subst ht'; simpa using hv) hct
+        simp [h1] at this
+      | some h0 =>
+        have hm : h0 ∈ addGroupCatches := List.mem_of_find?_eq_some hf
+        have := (List.all_eq_true.mp hall) h0 hm
+        exact ⟨by simpa using raiseOne_documented _ this, Or.inl (by simp)⟩
+
+/-- **addProcessGroup_answers_partial.**  `supervisor.addProcessGroup(name)` in every mood, whether or
+    not a configured group has the name, whatever `supervisord.add_process_group` does for it — adds
+    the group, finds it active, or fails with ANY exception of class ValueError or OSError or a
+    subclass (F48: `FastCGIProcessGroup` raising "Could not create FastCGI socket …", fixed in 076788a;
+    F49: `config.after_setuid()` cannot create an AUTO child log because the child log directory is
+    gone → FileNotFoundError, fixed in 4afb3d2; the except clause is the generated `addGroupCatches`):
+    the answer is a value or a fault whose code is a constant of `Faults`; below RUNNING it is
+    SHUTDOWN_STATE and nothing changed; and the group table changes only together with the answer `True`.
+    PARTIAL: the hypothesis restricts the exception class to the two the construction of a group is
+    known to raise (files, sockets, configuration values).  An exception of any other class would
+    still escape the method (`addProcessGroup_other_classes_escape`); the harness found no way to
+    provoke one through the real configuration classes. -/
+theorem addProcessGroup_answers_partial {ν : Type} (vTrue : ν) (mood : Int) (found : Bool) (construct : AddRes) (s : Nat)
+    (h : ∀ exc, construct = .raised exc → catches ["ValueError", "OSError"] exc = true) :
+    Documented (addProcessGroup vTrue mood found construct s).1 ∧
+    (mood < moodRunning → ∃ c, faultCode "SHUTDOWN_STATE" = some c ∧ addProcessGroup vTrue mood found construct s = (.fault c, s)) ∧
+    ((addProcessGroup vTrue mood found construct s).2 = s ∨
+      (found = true ∧ construct = .added ∧ addProcessGroup vTrue mood found construct s = (.value vTrue, s + 1))) := by
+  obtain ⟨c, hc, hu⟩ := updateFault_eq (σ := Nat) (ν := ν)
+  obtain ⟨hdoc, hst⟩ := addGroupBody_documented vTrue found construct s h
+  have hg : gateTable.lookup "addProcessGroup" = some Gate.first ∨ gateTable.lookup "addProcessGroup" = some Gate.afterPure := by decide
+  have key : addProcessGroup vTrue mood found construct s =
+      if update_g0 true mood then (updateFault, s) else addGroupBody vTrue found construct s := by
+    unfold addProcessGroup
+    rcases hg with hg | hg <;> rw [hg] <;> rfl
+  rw [key]
+  by_cases hm : mood < moodRunning
+  · have : update_g0 true mood = true := by simp [update_g0, hm]
+    simp only [this, if_true]
+    exact ⟨Or.inr ⟨c, faultCode_mem _ c hc, hu⟩, fun _ => ⟨c, hc, by rw [hu]⟩, by first | exact Or.inl rfl | exact Or.inl trivial⟩
+  · have : update_g0 true mood = false := by simp [update_g0, hm]
+    simp only [this, Bool.false_eq_true, if_false]
+    exact ⟨hdoc, fun h' => absurd h' hm, hst⟩
+
+/-- F49 (fixed in 4afb3d2): the child log directory is gone — FileNotFoundError, an OSError — the answer
+    is FAILED and nothing is added -/
+theorem addProcessGroup_oserror_answers_failed :
+    addProcessGroup true 1 true (.raised "FileNotFoundError") 0 = (.fault 30, 0) ∧
+    catches ["ValueError", "OSError"] "FileNotFoundError" = true ∧ faultCode "FAILED" = some 30 := ⟨by rfl, by decide, by decide⟩
+
+/-- the excluded part of `addProcessGroup_answers_partial`: a class that is neither a ValueError nor an
+    OSError is not caught by the method as it is -/
+theorem addProcessGroup_other_classes_escape :
+    addProcessGroup true 1 true (.raised "KeyError") 0 = (.raised "KeyError", 0) ∧
+    catches ["ValueError", "OSError"] "KeyError" = false := ⟨by rfl, by decide⟩
+
+-- F48 in the small: the group's construction raises ValueError -> fault FAILED (30), nothing added; non-vacuity
+example : addProcessGroup true 1 true (.raised "ValueError") 0 = (.fault 30, 0) := by rfl
+example : addProcessGroup true 1 true .added 0 = (.value true, 1) := by rfl
+example : addProcessGroup true 1 true .already 0 = (.fault 90, 0) := by rfl
+example : addProcessGroup true 1 false .already 0 = (.fault 10, 0) := by rfl
+example : addProcessGroup true 0 true (.raised "ValueError") 0 = (.fault 6, 0) := by rfl
+example : catches ["ValueError"] "UnicodeDecodeError" = true ∧ catches ["OSError"] "ConnectionResetError" = true := by decide
 
 -- non-vacuity
 def demoTable : Table (Method Nat Nat) := fun ns =>
